@@ -332,15 +332,18 @@ class WARCRecorder(object):
 
         journal_filename = self._warc_filename + '-wpullinc'
 
-        with open(journal_filename, 'w') as file:
-            file.write('wpull-journal-version:1\n')
-            file.write('offset:{}\n'.format(before_offset))
-
         try:
+            with open(journal_filename, 'w') as file:
+                file.write('wpull-journal-version:1\n')
+                file.write('offset:{}\n'.format(before_offset))
+
             with open_func(self._warc_filename, mode='ab') as out_file:
                 for data in record:
                     out_file.write(data)
-        except (OSError, IOError) as error:
+        except BaseException:
+            # Not only I/O errors: whatever interrupts the append (Ctrl-C, an
+            # error while the record is read) must not leave a partial record
+            # behind once the journal is gone.
             _logger.info(
                 _('Rolling back file {filename} to length {length}.'),
                 filename=self._warc_filename, length=before_offset
@@ -348,9 +351,10 @@ class WARCRecorder(object):
             with open(self._warc_filename, mode='r+b') as out_file:
                 out_file.truncate(before_offset)
 
-            raise error
+            raise
         finally:
-            os.remove(journal_filename)
+            if os.path.exists(journal_filename):
+                os.remove(journal_filename)
 
         after_offset = os.path.getsize(self._warc_filename)
 
